@@ -180,7 +180,7 @@ contract('pyx12.x12file.X12Reader.cleanup',
          returns=NoneT,
          ensures=['envelope_codes(self.err_list) == envelope_codes(old(self.err_list)) + end_errors(self.loops)',
                   'self.loops == old(self.loops)'],
-         raises={},
+         raises={}, build='build_reader_cleanup',
          loops={0: dict(index='k', ghost={'errs0': 'self.err_list'},
                         invariant=['envelope_codes(self.err_list) == envelope_codes(errs0) + end_errors(self.loops[:k])'],
                         modifies=['self.err_list', 'err_str'], types={'err_str': Str})},
@@ -228,6 +228,10 @@ contract('pyx12.x12file.X12Writer.Write',
          requires=W_REQ + ['header_ok(self.loops, seg_data)'],
          ensures=['wf_stack(self.loops)', 'ids_present(self.loops)', W_INV,
                   'closes_through(self.loops, seg_data.get_seg_id())',
+                  "seg_data.get_seg_id() not in ('IEA', 'GE', 'SE') or self.loops == stack_after_trailer(old(self.loops), seg_data.get_seg_id())",
+                  "seg_data.get_seg_id() != 'ISA' or (seg_data.get_value('ISA16') == self.subele_term and "
+                  "(old(seg_data.get_value('ISA12')) != '00501' or seg_data.get_value('ISA11') == self.repetition_term) and "
+                  "seg_data.get_value('ISA13') == old(seg_data.get_value('ISA13')))",
                   "seg_data.get_seg_id() in ('IEA', 'GE', 'SE') or self.fd_out.log == old(self.fd_out.log) + [entry_of(seg_data, self)]",
                   "seg_data.get_seg_id() in ('ISA', 'LX') or seg_val(seg_data) == old(seg_val(seg_data))",
                   'self.hl_count >= 0 and self.lx_count >= 0 and self.gs_count >= 0 and self.st_count >= 0 and self.seg_count >= 0'],
@@ -366,3 +370,9 @@ def bounded_get_trailer_segment(seed, tier):
     return {'function': 'pyx12.x12file.X12Writer._get_trailer_segment', 'evaluations': n,
             'bound': 'grid: 6 delimiter triples x 3 kinds x 8 counts x 7 ids (ids containing a delimiter skipped)',
             'failures': failures}
+
+
+def build_reader_cleanup(args):
+    import pyx12.x12file
+    r = native_reader(args.get('self', {}))
+    return (lambda: pyx12.x12file.X12Reader.cleanup(r)), (), {'self': r}
